@@ -162,7 +162,7 @@ public:
 	void store()
 	{
 		std::set<std::string> triggers;
-		if(	hin_.operations.store.key_len
+		if(	uint64_t(hin_.operations.store.key_len)
 			+hin_.operations.store.data_len
 			+hin_.operations.store.triggers_len != hin_.size
 			|| hin_.operations.store.key_len == 0)
